@@ -10,7 +10,8 @@
 //	              op   add:<mb> | rm:<mb>:<k> | purge:<mb> | seen:<mb>:<k>
 //	                   padd:<mb> (only at r<n>): a delivery already past its mailbox lookup when the scanner's
 //	                   n-th RemoveMessage runs, taking the mailbox lock right after it (reported as a<n>/add)
-//	   cancelAt n: the context is cancelled during the n-th callback; "-": never
+//	   cancelAt n: the context is cancelled during the n-th callback (RetentionSleep 100 ms); nz / nn: the same
+//	            with RetentionSleep 0 / 1 ns (the select at the callback end is then a race); "-": never
 //	 => <order of callbacks> <ok|ERR> <callbacks> E=<effective schedule> D=<survivors> R=<removed by the scanner>
 //	start <store> <period_s> <cancel_ms> <boxes>      cancel_ms < 0: never cancelled; >= 60000: Start's first scan
 //	 => returned|TIMEOUT D=<survivors>                  (one minute after Start) has run before the cancellation
@@ -315,12 +316,21 @@ func runScan(in []string) []string {
 			d.injs = append(d.injs, &inj{pos: p[0], op: strings.Split(p[1], ":")})
 		}
 	}
-	if in[4] != "-" {
-		d.cancelAt = vh.AtoI(in[4])
-	}
+	// cancelAt: "<n>" cancels during the n-th callback with RetentionSleep 100 ms (at the callback end only the
+	// ctx case is ready); "<n>z" / "<n>n" do so with RetentionSleep 0 / 1 ns: the sleep timer has expired when
+	// the select is reached, timer and ctx.Done race and the scan may go on with further mailboxes.
 	sleep := time.Duration(0)
-	if d.cancelAt > 0 {
-		sleep = 100 * time.Millisecond // waited for in the callbacks before the cancelled one
+	if in[4] != "-" {
+		c := in[4]
+		switch c[len(c)-1] {
+		case 'z':
+			c = c[:len(c)-1]
+		case 'n':
+			c, sleep = c[:len(c)-1], time.Nanosecond
+		default:
+			sleep = 100 * time.Millisecond // waited for in the callbacks before the cancelled one
+		}
+		d.cancelAt = vh.AtoI(c)
 	}
 	ctx, cancel := context.WithCancel(context.Background())
 	defer cancel()
